@@ -97,6 +97,7 @@ def explore(ck):
             if models[i]['csv'] != ref: ck.disagreement('model rows differ between layouts of chain %d' % k, '%s vs %s' % (ids[0], i), None, in_domain=False)
     for c in cases: ck.count('layout:' + c.meta['layout'])
     # unit-level correspondences through the hooks: Core VarInt / index record decode, blk file names
+    if not run.hooks_ok(ck): return
     recs = []
     vals = [0, 1, 127, 128, 255, 16383, 16384, 16511, 16512, 2**21, 2**28, 2**32 - 1, 2**32, 2**35, 2**63, 2**64 - 1]
     for i in range(300 if quick else 3000):
